@@ -226,6 +226,7 @@ func protoShapes() []*fuzzInput {
 		add("post-native-line-"+strconv.Itoa(i), wire.HTTPPost, "POST / HTTP/1.1\r\nContent-Length: "+strconv.Itoa(len(line))+"\r\n\r\n"+line)
 		add("native-line-"+strconv.Itoa(i), wire.Native, "$"+strconv.Itoa(len(line))+" "+line+"\r\n")
 	}
+	add("known-jset-balloon", wire.RESP, "*5\r\n$4\r\nJSET\r\n$7\r\nballoon\r\n$3\r\ndoc\r\n$8\r\n99999999\r\n$1\r\n1\r\n")
 	add("http-no-path", wire.HTTPGet, "GET  HTTP/1.1\r\n\r\n")
 	add("http-root", wire.HTTPGet, "GET / HTTP/1.1\r\n\r\n")
 	add("http-bad-escape", wire.HTTPGet, "GET /PING%zz HTTP/1.1\r\n\r\n")
@@ -448,11 +449,9 @@ func (q *quarantine) skip(in *fuzzInput) bool {
 	// class is sent, every later one is skipped (each observation costs a server
 	// and tens of seconds)
 	if balloonIn(in) {
-		if q.words["JSET"] {
-			return true
-		}
-		q.words["JSET"] = true
-		return false
+		// only the canonical shape of the protocol-shape list is sent, so that the listed
+		// finding is observed in every run and by the same input
+		return in.Tmpl != "known-jset-balloon"
 	}
 	if lineWithinLineIn(in) {
 		if q.words["line-within-line"] {
